@@ -136,10 +136,10 @@ class Ctx:
             post = open(os.path.join(self.snap, "longlong_post.h")).read()
             if not native:
                 try:
-                    inc, nasm = asm_inline.translate_file(inc, "uf" if "uf" in flags else "exact")
+                    inc, nasm = asm_inline.translate_file(inc, "uf" if ("uf" in flags or "ufc" in flags or "ufr" in flags) else "exact")
                 except asm_inline.AsmError as e:
                     raise Infra("inline asm translation failed: %s" % e)
-                inc = '#include "vf_asm.h"\n' + inc
+                inc = ('#define VF_UF_COMM 1\n' if "ufc" in flags else "") + ('#define VF_UF_RANGE 1\n' if "ufr" in flags else "") + '#include "vf_asm.h"\n' + inc
                 self.n_inline_asm = nasm
             open(os.path.join(d, "longlong.h"), "w").write(pre + inc + post)
             shutil.copyfile(os.path.join(VERIF, "harness", "vf_asm.h"), os.path.join(d, "vf_asm.h"))
@@ -188,14 +188,14 @@ class Ctx:
             os.makedirs(os.path.dirname(out), exist_ok=True)
             v = variant
             if native:
-                v = "+".join(["native"] + [f for f in variant.split("+") if f not in ("exact", "uf")])
+                v = "+".join(["native"] + [f for f in variant.split("+") if f not in ("exact", "uf", "ufc", "ufr")])
             defs = ["-DHAVE_CONFIG_H", "-D__GMP_WITHIN_GMP"] + list(extra)
             if op:
                 defs.append("-DOPERATION_" + op)
             if native:
-                cmd = ["gcc", "-c", "-O1", "-w", "-fwrapv"] + defs + self.incs(v) + [src, "-o", out]
+                cmd = ["gcc", "-c", "-O1", "-g", "-w", "-fwrapv", "-fsanitize=address", "-fno-omit-frame-pointer"] + defs + self.incs(v) + [src, "-o", out]
             else:
-                cmd = ["goto-cc", "-c", "-w"] + defs + self.incs(v) + [src, "-o", out]
+                cmd = ["goto-cc", "-c", "-w", "-DVF_CBMC"] + defs + self.incs(v) + [src, "-o", out]
             rc, so, se = sh(cmd)
             if rc != 0:
                 raise Infra("compile failed for %s (%s):\n%s" % (path, "native" if native else "goto", se[-3000:]))
@@ -311,7 +311,7 @@ class Runner:
     def build_goto(self, q, wd):
         objs = [self.ctx.unit_obj(u, q.variant, extra=q.unit_defs) for u in q.units]
         hobj = os.path.join(wd, "harness.o")
-        cmd = ["goto-cc", "-c", "-w", "-DHAVE_CONFIG_H", "-D__GMP_WITHIN_GMP"] + _defflags(q.defs) + self.ctx.incs(q.variant) + [self._harness_src(q), "-o", hobj]
+        cmd = ["goto-cc", "-c", "-w", "-DVF_CBMC", "-DHAVE_CONFIG_H", "-D__GMP_WITHIN_GMP"] + _defflags(q.defs) + self.ctx.incs(q.variant) + [self._harness_src(q), "-o", hobj]
         rc, so, se = sh(cmd)
         if rc:
             raise Infra("harness compile failed (%s):\n%s" % (q.name, se[-3000:]))
@@ -354,7 +354,23 @@ class Runner:
             except Exception as e:
                 q.status, q.detail = "error", "unparsable cbmc output rc=%d: %s %s" % (rc, so[-500:], se[-500:])
                 return q
-            nobody = [m for m in msgs if "no body for" in m] + [r["property"] for r in results if "no-body" in r.get("property", "")]
+            ubf = [r for r in results if r["status"] == "FAILURE" and (".overflow." in r["property"] or ".undefined-shift." in r["property"])]
+            if ubf and any(r["status"] not in ("SUCCESS", "FAILURE") for r in results):
+                # a failed undefined-behaviour check (e.g. the x >> (64-cnt) & mask idiom with cnt==0) makes CBMC
+                # report everything after it UNKNOWN: note it, and decide the rest with those two UB checks off
+                q.ub_notes = sorted(set("%s: %s" % (r["property"], r.get("description", "")) for r in ubf))
+                cmd = cmd + ["--no-undefined-shift-check", "--no-signed-overflow-check"]
+                q.extra_cbmc = q.extra_cbmc + ["--no-undefined-shift-check", "--no-signed-overflow-check"]
+                try:
+                    rc, so, se = sh(["timeout", str(q.timeout)] + cmd, timeout=q.timeout + 30)
+                except subprocess.TimeoutExpired:
+                    rc = 124
+                q.solver_s = time.time() - t0
+                if rc in (124, 137):
+                    q.status, q.detail = "inconclusive", "timeout %ds" % q.timeout
+                    return q
+                results, msgs, st = parse_cbmc_json(so)
+            nobody = [m for m in msgs if "no body for" in m] + [r["property"] for r in results if "no-body" in r.get("property", "") and r.get("status") != "SUCCESS"]
             if nobody:
                 q.status, q.detail = "error", "missing unit: " + "; ".join(sorted(set(nobody))[:8])
                 return q
@@ -367,8 +383,8 @@ class Runner:
             # arithmetic-overflow class (signed overflow in the real code): standard-level UB that gcc's
             # -fwrapv-like code generation does not expose; reported separately as UB-NOTE (DESIGN 2.7),
             # a wrong *value* would also fail a CHECK and is handled below
-            ub = [r for r in real_fail if ".overflow." in r["property"]]
-            q.ub_notes = sorted(set("%s: %s" % (r["property"], r.get("description", "")) for r in ub))
+            ub = [r for r in real_fail if ".overflow." in r["property"] or ".undefined-shift." in r["property"]]
+            q.ub_notes = sorted(set(list(q.ub_notes) + ["%s: %s" % (r["property"], r.get("description", "")) for r in ub]))
             real_fail = [r for r in real_fail if r not in ub]
             other = [r for r in results if r["status"] not in ("SUCCESS", "FAILURE")]
             if other:
@@ -428,16 +444,17 @@ class Runner:
             objs = [ctx.unit_obj(u, q.variant, native=True, extra=q.unit_defs) for u in q.units]
         except Infra as e:
             return "error", str(e)
-        v = "+".join(["native"] + [f for f in q.variant.split("+") if f not in ("exact", "uf")])
+        v = "+".join(["native"] + [f for f in q.variant.split("+") if f not in ("exact", "uf", "ufc", "ufr")])
         exe = os.path.join(wd, "replay.exe")
-        cmd = ["gcc", "-O1", "-w", "-fwrapv", "-DREPLAY", "-DHAVE_CONFIG_H", "-D__GMP_WITHIN_GMP"] + _defflags(q.defs) + ctx.incs(v) + [self._harness_src(q)] + objs + ["-o", exe, "-lm"]
+        cmd = ["gcc", "-O1", "-g", "-w", "-fwrapv", "-fsanitize=address", "-fno-omit-frame-pointer", "-DREPLAY", "-DHAVE_CONFIG_H", "-D__GMP_WITHIN_GMP"] + _defflags(q.defs) + ctx.incs(v) + [self._harness_src(q)] + objs + ["-o", exe, "-lm", "-no-pie", "-Wl,--unresolved-symbols=ignore-all"]
         rc, so, se = sh(cmd)
         if rc:
             return "error", "replay compile failed: " + se[-1500:]
         vf = os.path.join(wd, "inputs.txt")
         open(vf, "w").write("\n".join(str(x) for x in vals) + "\n")
         try:
-            rc, so, se = sh([exe, vf], timeout=60)
+            env = dict(os.environ, ASAN_OPTIONS="detect_leaks=0:abort_on_error=0:exitcode=1")
+            rc, so, se = sh([exe, vf], timeout=60, env=env)
         except subprocess.TimeoutExpired:
             return "error", "replay timeout"
         out = so + se
@@ -452,6 +469,9 @@ class Runner:
                    "variant": q.variant, "inputs": vals, "cbmc_property": getattr(q, "cex_prop", ""), "native_output": out[-2000:]},
                   open(os.path.join(rd, "replay.json"), "w"), indent=1)
         q.replay_path = os.path.join(rd, "replay.json")
+        if "AddressSanitizer" in out:
+            m = re.search(r"ERROR: AddressSanitizer: ([^\n]*)", out)
+            return "fail", "REPLAY-FAIL AddressSanitizer: " + (m.group(1)[:200] if m else "")
         if "REPLAY-FAIL" in out or rc in (1, -6, -11, 134, 139):
             return "fail", out
         if "REPLAY-ASSUME" in out:
@@ -613,7 +633,7 @@ def finish(ctx, queries, level="model_checking", extra_cov=None, assumptions=Non
             new_viol.append(q)
     notes = sorted(set(n for q in queries for n in q.ub_notes))
     for n in notes[:20]:
-        log("UB-NOTE (signed-overflow class, not a VIOLATION): %s" % n)
+        log("UB-NOTE (signed-overflow / over-wide-shift class, not a VIOLATION): %s" % n)
     extra_cov = dict(extra_cov or {})
     extra_cov["ub_notes"] = notes
     write_evidence(ctx, queries, level, extra_cov, (assumptions or []) + COMMON_ASSUMPTIONS, len(viol), note)
@@ -622,6 +642,8 @@ def finish(ctx, queries, level="model_checking", extra_cov=None, assumptions=Non
     ni = sum(1 for q in queries if q.status == "inconclusive")
     log("%s tier=%s: %d queries, %d discharged, %d inconclusive, %d violations, %d unconfirmed cex, %d errors, wall %.0fs"
         % (ctx.prop, ctx.tier, n, nd, ni, len(viol), len(unconf), len(errs), time.time() - ctx.t0))
+    slow = sorted(queries, key=lambda q: -q.solver_s)[:6]
+    log("slowest: " + ", ".join("%s %.0fs" % (q.name, q.solver_s) for q in slow))
     for q in new_viol:
         log("VIOLATION property=%s replay=%s" % (ctx.prop, q.replay_path))
         log("   query=%s %s" % (q.name, q.detail[:500]))
